@@ -64,9 +64,8 @@ Record param := mkParam { p_name : list N; p_ty : ty; p_ref : bool }.
 
 (* a_id: identity of the alias (for the correspondence); a_fn: the declaration it calls;
    a_toks: alias tokens without the EOF; a placeholder token has tt = ALIAS_PARAMETER,
-   lit = the parameter name (Literal with "<>" trimmed) and ainfo = its key abstraction;
-   a_generic: decl.Generic != nil *)
-Record alias := mkAlias { a_id : N; a_fn : N; a_toks : list tok; a_params : list param; a_neg : bool; a_generic : bool }.
+   lit = the parameter name (Literal with "<>" trimmed) and ainfo = its key abstraction *)
+Record alias := mkAlias { a_id : N; a_fn : N; a_toks : list tok; a_params : list param; a_neg : bool }.
 
 Fixpoint find_param (ps : list param) (name : list N) : option param :=
   match ps with
@@ -78,9 +77,21 @@ Definition is_placeholder (t : tok) : bool := N.eqb (tt t) tt_ALIAS_PARAMETER.
 
 (* ---- candidate order (sortAliases) ---- *)
 Definition is_tgen (t : ty) : bool := match t with TGen _ => true | _ => false end.
+(* GetNestedListElementType *)
+Fixpoint nested_elem (t : ty) : ty := match t with TList e => nested_elem e | _ => t end.
+(* CastDeeplyNestedGenerics (without generic structs): the innermost element type is a type parameter *)
+Definition deep_generic (t : ty) : bool := is_tgen (nested_elem t).
 Definition alias_len (a : alias) : nat := length (a_toks a).
-(* ddptypes.IsGeneric(paramType.Type): only a parameter whose type IS a type parameter counts *)
-Definition gen_count (a : alias) : nat := length (filter (fun p => is_tgen (p_ty p)) (a_params a)).
+(* sortAliases since 3e80d99: a parameter counts as generic when its type contains a type
+   parameter at any list depth (CastDeeplyNestedGenerics) *)
+Definition gen_count (a : alias) : nat := length (filter (fun p => deep_generic (p_ty p)) (a_params a)).
+(* the key the pinned tree used (ddptypes.IsGeneric: only a parameter whose type IS a type parameter) *)
+Definition gen_count_direct (a : alias) : nat := length (filter (fun p => is_tgen (p_ty p)) (a_params a)).
+(* ast.IsGeneric(decl), i.e. decl.Generic != nil: funcDeclaration makes a declaration generic exactly
+   when a parameter type mentions a type parameter ("Eine generische Funktion braucht mindestens
+   einen Typparameter"; a non-generic declaration cannot spell one). The check compares this with
+   the flag of every real declaration. *)
+Definition a_generic (a : alias) : bool := Nat.ltb 0 (gen_count a).
 Definition ref_count (a : alias) : nat := length (filter p_ref (a_params a)).
 
 (* the comparator handed to sort.Slice: "a sorts before b" *)
